@@ -56,7 +56,7 @@ def decDetail (j : Json) : Option Detail :=
 
 def viaText : Via → String
   | .launch => "launch" | .reply => "reply" | .callback => "callback"
-  | .childEnd => "childEnd" | .timeout => "timeout" | .cancel => "cancel"
+  | .childEnd => "childEnd" | .timeout => "timeout" | .cancel => "cancel" | .waitCancel => "waitCancel"
 
 def outcomeJ : Outcome → Json
   | .ok v => .obj [(S "outcome", .str (S "ok")), (S "value", v)]
